@@ -80,6 +80,8 @@ def rand_value(rng, kind=None):
     r = rng.random()
     if r < 0.08:
         return 0 if rng.random() < 0.5 else 0.0
+    if r < 0.14:
+        return rng.choice([-1, 1]) * 10 ** rng.uniform(-17, -12)       # rounding-noise sized values of either sign
     v = 10 ** rng.uniform(-12, 12) if rng.random() < 0.3 else float(f'{10 ** rng.uniform(-3, 4):.4g}')
     if rng.random() < 0.25:
         v = -v
@@ -140,7 +142,13 @@ def run_program(ctx, idx, tier, extreme=False):
                     res = {'+': lambda x, y: x + y, '-': lambda x, y: x - y, '*': lambda x, y: x * y, '/': lambda x, y: x / y}[op](pool[a], bo)
                 if hasattr(res, 'unit'):
                     pool[target] = res
-            elif r < 0.65:
+            elif r < 0.60:
+                a = rng.choice(names)
+                k = type(pool[a]).__name__
+                u = rng.choice(SI.units(k))
+                desc = ['selfdiff', a, u]
+                pool[target] = pool[a] - pool[a].to(u)
+            elif r < 0.68:
                 a = rng.choice(names)
                 f = rng.choice(['abs', 'neg'])
                 desc = [f, a]
